@@ -2,6 +2,7 @@ import Mastverif.Lemmas.RefErr
 import Mastverif.Lemmas.RefDelSys
 import Mastverif.Lemmas.PtrGo
 import Mastverif.Lemmas.History
+import Mastverif.Lemmas.RefHistExample
 /-!
 # C01 at the level of node objects (property theorems)
 
@@ -24,7 +25,10 @@ functional tree `A` (every field of the record, every residency flag).  Then
   the neighbouring children, in-place commit with pruning, height reduction);
 * `C01_object_level_other_trees`: every other tree over the same heap, store and cache denotes
   what it denoted (whether the call succeeds or fails);
-* `C01_object_level_insert_then_lookup` / `_delete_then_lookup`: the consequences with
+* `C01_object_level_persist / _load / _clone`: `MakeRoot`, `LoadMast`, `Clone`;
+* `C01_object_level_history` (+ `_from_empty`): the statement along a whole `Sys.run` history of any
+  number of trees over one heap, store and cache;
+* `C01_object_level_insert_then_lookup`: the consequences with
   `Props/C01.lean`: on a well-formed tree the object-level `Get` after an object-level `Insert`
   returns the value written, after a `Delete` not-found.
 * `C01_driver_insert_is_insert` / `C01_driver_delete_is_delete`: the driver runs `insertGo` /
@@ -123,6 +127,58 @@ theorem C01_object_level_insert_then_lookup (E : Env) (fuel fuel2 g : Nat) (s s'
     exact T.getL_insL_same k v A.toList hi.sorted
   | _ => trivial
 
+/-- `MakeRoot`: the tree afterwards denotes the same entries with every link a name, clean; the
+    returned name denotes that root row in the (only grown) store; every other tree denotes what
+    it denoted (`WStep.repTree_other`); the invariants are re-established -/
+theorem C01_object_level_persist (E : Env) (t t' : PTree) (fuel g n : Nat) (s s' : PS) (A : Tree)
+    (hg : Good s) (hsrc : SourceOK s) (hsd : StoreDen s.store) (hown : FpOwned s.heap t.id (footprint s g t))
+    (hA : repTree s g t = some A) (h : flush E t fuel s = .ok (t', n) s') :
+    Good s' ∧ SourceOK s' ∧ StoreDen s'.store ∧ WStep t.id s s' ∧ FlushOK t g A t' n s' ∧
+    (flushedTree A).root.toList = A.root.toList :=
+  let r := flush_refines E t t' fuel g n s s' A hg hsrc hsd hown hA h
+  ⟨r.1, r.2.1, r.2.2.1, r.2.2.2.1, r.2.2.2.2, flushedTree_toList A⟩
+
+/-- `LoadMast` of a name: the new tree denotes the row the name denotes, with the recorded size and
+    height and the thresholds of that height; of the empty root: the empty tree -/
+theorem C01_object_level_load (E : Env) (id link size height bf : Nat) (s s' : PS) (t : PTree) (hg : Good s)
+    (h : loadMast E id link size height bf s = .ok t s') :
+    Good s' ∧ t.id = id ∧ (t.bf = bf ∧ t.shrinkBelow = bf ^ height ∧ t.growAfter = bf ^ height * bf) ∧
+    (link = 0 → repTree s' 1 t = some (loadedTree false (T.last false T.nil) size height bf)) ∧
+    (link ≠ 0 → ∀ g x, repLink s.heap s.store g (.ref link) = some x →
+        repTree s' g t = some (loadedTree true x.2.1 size height bf)) := by
+  obtain ⟨_, h2, h3, _, h5, h6, h7⟩ := loadMast_refines E id link size height bf s s' t hg h
+  exact ⟨h2, h3, h5, fun hl => (h6 hl).1, fun hl g x hx => ((h7 hl).2 g x hx).1⟩
+
+/-- `Clone` (and so `Cursor()`): the clone denotes the same tree (the root link is a pointer), the
+    source still denotes what it denoted, and the two share no unshared object -/
+theorem C01_object_level_clone (E : Env) (t t' : PTree) (newId fuel g : Nat) (s s' : PS) (A : Tree)
+    (hg : Good s) (hA : repTree s g t = some A) (h : clone E t newId fuel s = .ok t' s') :
+    Good s' ∧ repTree s' g t' = some { A with rootP := false } ∧ repTree s' g t = some A ∧
+    (∀ b ∈ footprint s' g t, b ∉ footprint s' g t') := by
+  obtain ⟨_, h2, _, h4, h5, _, _, _, h9⟩ := clone_refines E t t' newId fuel g s s' A hg hA h
+  exact ⟨h2, h4, h5, h9⟩
+
+/-- **the whole history**: from any system that satisfies the invariant `RSys` (in particular the
+    empty one), along ANY history of loads of persisted roots (branch factor ≥ 2), inserts, deletes,
+    lookups, iterations, persists and clones on any of its trees — with any layer function, any
+    pattern of failing store loads, a node cache or none — that runs to its end (every call `.ok` or
+    `.err`), the invariant holds at the end and the list of functional trees the system denotes has
+    evolved by the functional operations (`FRun`: `Tree.insert` / `Tree.delete` / identity / flush /
+    append a copy / append the loaded tree, per call and outcome; the trees a call does not target
+    are untouched).  Every theorem about the functional model thereby speaks about the object-level
+    transcription of the code. -/
+theorem C01_object_level_history (E : Env) (fuel : Nat) (ops : List Op) (σ : Sys) (As : List Tree)
+    (hR : RSys σ) (hD : Den σ As) (hc : ∀ op ∈ ops, OpCovered op) (hok : (Sys.run E fuel σ ops).2 = .ok) :
+    RSys (Sys.run E fuel σ ops).1 ∧ ∃ As', Den (Sys.run E fuel σ ops).1 As' ∧
+      FRun E.layer σ.ps.store As ops (Sys.run E fuel σ ops).1.ps.store As' :=
+  Sys.run_refines E fuel ops σ As hR hD hc hok
+
+theorem C01_object_level_history_from_empty (E : Env) (fuel : Nat) (ops : List Op)
+    (hc : ∀ op ∈ ops, OpCovered op) (hok : (Sys.run E fuel {} ops).2 = .ok) :
+    RSys (Sys.run E fuel {} ops).1 ∧ ∃ As', Den (Sys.run E fuel {} ops).1 As' ∧
+      FRun E.layer [] [] ops (Sys.run E fuel {} ops).1.ps.store As' :=
+  Sys.run_refines E fuel ops {} [] RSys.init (den_empty _ rfl) hc hok
+
 /-- the driver's `Insert` / `Delete` are the proved ones -/
 theorem C01_driver_insert_is_insert (E : Env) (fuel : Nat) (s : PS) (t : PTree) (k v : Nat) :
     (insertGo E fuel s t k v).2.2 = (insert E fuel s t k v).2.2 ∧
@@ -146,5 +202,10 @@ end Mast.Ptr
 #print axioms Mast.Ptr.C01_object_level_delete_absent
 #print axioms Mast.Ptr.C01_object_level_other_trees
 #print axioms Mast.Ptr.C01_object_level_insert_then_lookup
+#print axioms Mast.Ptr.C01_object_level_persist
+#print axioms Mast.Ptr.C01_object_level_load
+#print axioms Mast.Ptr.C01_object_level_clone
+#print axioms Mast.Ptr.C01_object_level_history
+#print axioms Mast.Ptr.C01_object_level_history_from_empty
 #print axioms Mast.Ptr.C01_driver_insert_is_insert
 #print axioms Mast.Ptr.C01_driver_delete_is_delete
